@@ -372,19 +372,19 @@ func ruleC03SingleWrite(r *Run, p *Program, rule string) {
 	// success requires the append
 	r.check(mustCallOnSuccess(f, func(in ssa.Instruction) bool { return len(apps) == 1 && in == ssa.Instruction(apps[0]) }), rule, funcKey(f)+":append-on-success", p.Pos(f.Pos()), "writeRecord returns success only after the append", "writeRecord can return success without appending the record")
 	// the location returned is where the record was written
+	nloc := 0
 	for _, ret := range returnsOf(f) {
-		if isFailureReturn(f, ret) || len(ret.Results) != 3 || len(apps) != 1 {
+		if isFailureReturn(f, ret) {
 			continue
 		}
-		offOK := false
-		if cv, ok := strip(retOperand(ret, 1)).(*ssa.Convert); ok {
-			if c, idx := callResult(cv.X); c == apps[0] && idx == 0 {
-				offOK = true
-			}
+		nloc++
+		kinds := map[string]int{}
+		for _, v := range retComponents(ret) {
+			kinds[locKind(v, 0)]++
 		}
-		idOK := isFieldLoad(retOperand(ret, 0), "pogreb.segment.id") && accessPathHas(retOperand(ret, 0), ".curSeg.")
-		r.check(offOK && idOK, rule, funcKey(f)+":returns-location", p.Pos(instrPos(ret)), "writeRecord returns (current segment id, offset returned by append)", "writeRecord returns a location other than the one the record was appended at")
+		r.check(kinds["id"] == 1 && kinds["off"] == 1, rule, funcKey(f)+":returns-location", p.Pos(instrPos(ret)), "writeRecord returns (current segment id, offset returned by append)", "writeRecord returns a location other than the one the record was appended at")
 	}
+	r.universe(rule+":location-returns", nloc, 1)
 	var wr []*ssa.Call
 	instrsOf(g, func(in ssa.Instruction) {
 		if c, ok := in.(*ssa.Call); ok && c.Call.IsInvoke() && typeName(c.Call.Value.Type()) == "fs.File" && fileMutators[c.Call.Method.Name()] {
